@@ -150,7 +150,9 @@ def check_ranges(sizes, pos, size):
         sample('py-ranges', {'block_sizes': sizes, 'pos': pos, 'size': size, 'result': got})
 
 
-NAME_ALPHABET = ['a', 'b', '.', ' ', ':', '\\', '0', '4', '1', '3', '\t', '\n', 'é', '日', '\x01', 'x', '7', '8', '+', '-']
+NAME_ALPHABET = ['a', 'b', '.', ' ', ':', '\\', '0', '4', '1', '3', '\t', '\n', 'é', '日', '\x01', 'x', '7', '8', '+', '-',
+                 # DEL, C1 controls, NBSP, line separator, astral: one code point is several manifest bytes
+                 '\x7f', '\x80', '\x85', '\x9b', '\x9f', '\xa0', '\u2028', '\U0001f600']
 
 
 def check_escape(name):
@@ -164,7 +166,9 @@ def check_escape(name):
         raise AssertionError('escape(%r) = %r, which unescapes to %r' % (name, esc, back))
     special = any(c in name for c in ' :\\\t\n\x01')
     case(('escape', name), special, 'py:escape', 'py:escape-special' if special else '',
-         'py:backslash-digits' if '\\' in name and any(c.isdigit() for c in name) else '')
+         'py:backslash-digits' if '\\' in name and any(c.isdigit() for c in name) else '',
+         'py:c1-control-or-del' if any(0x7f <= ord(c) <= 0x9f for c in name) else '',
+         'py:multibyte' if any(ord(c) >= 0x80 for c in name) else '')
     if special:
         sample('py-escape', {'name': name, 'escaped': esc})
 
